@@ -421,6 +421,10 @@ func (hash *SexpHash) HashDelete(key Sexp) error {
 			hash.NumKeys--
 			// keep KeyOrder in step: drop the deleted key.
 			for j, k := range hash.KeyOrder {
+				// the same key: same hash code and equal
+				if hk, errk := HashExpression(nil, k); errk != nil || hk != hashval {
+					continue
+				}
 				r2, err2 := hash.Env.Compare(k, key)
 				if err2 == nil && r2 == 0 {
 					hash.KeyOrder = append(hash.KeyOrder[0:j], hash.KeyOrder[j+1:]...)
